@@ -41,7 +41,10 @@ import (
 //     stored rows are again exactly its live link (one row naming its parent, or none), rows that
 //     name it as the child may disagree with the sessions (the unchanged tree repairs this lazily
 //     - LinkAdd removes the first stored parent it finds - and may meanwhile leave the second of two
-//     rows behind).  Every other agent is held to the oracle as before.  A restart rebuilds the
+//     rows behind).  The same holds, at the faulted event, for the agents whose rows that event
+//     writes (the named agent of a connect / disconnect, a dying agent and its children): whether a
+//     new link is stored after the removal of the link it replaces was refused is the tree's choice.
+//     Every other agent is held to the oracle as before.  A restart rebuilds the
 //     sessions from the table, which ends every such disagreement - except for an agent with two
 //     stored parents, which stays out of step; the graph of the SESSIONS is never excused, after
 //     a restart either.
@@ -141,14 +144,15 @@ type excuses struct {
 	one              bool // ... only for rows that name agent id in either column
 	id               int64
 	before           map[pvx.LinkRow]bool // TS_Links before the faulted event
+	touched          []int64              // the agents whose rows (as the child) the faulted event writes: the named agent of a connect / disconnect, a dying agent and its children
 	note             string
 	outOfStep        map[int64]bool // agents whose stored rows (as the child) may disagree with the sessions
 }
 
 func newExcuses() *excuses { return &excuses{outOfStep: map[int64]bool{}} }
 
-func (ex *excuses) arm(f *Fault, c Case, before []pvx.LinkRow) {
-	ex.armed = true
+func (ex *excuses) arm(f *Fault, c Case, before []pvx.LinkRow, touched []int64) {
+	ex.armed, ex.touched = true, touched
 	ex.note = "[this event ran under a fault: " + f.describe(c) + "; lifted before the oracle read] "
 	ex.delFail = f.How == "write-lock" || (f.Table == "TS_Links" && f.Stmt == "DELETE" && f.valid())
 	ex.insFail = f.How == "write-lock" || (f.Table == "TS_Links" && f.Stmt == "INSERT" && f.valid())
@@ -160,7 +164,7 @@ func (ex *excuses) arm(f *Fault, c Case, before []pvx.LinkRow) {
 }
 
 func (ex *excuses) disarm() {
-	ex.armed, ex.delFail, ex.insFail, ex.before, ex.note = false, false, false, nil, ""
+	ex.armed, ex.delFail, ex.insFail, ex.before, ex.note, ex.touched = false, false, false, nil, "", nil
 }
 
 func (ex *excuses) what() string {
@@ -194,6 +198,14 @@ func (ex *excuses) establish(o obs, rows []pvx.LinkRow, have map[pvx.LinkRow]int
 			}
 		}
 	}
+	if ex.delFail || ex.insFail {
+		// the agents whose rows the event writes: whether the tree stores a new link after the removal
+		// of the one it replaces was refused, or after the insert failed, is its choice (settle takes
+		// them out again at once when their rows are right)
+		for _, c := range ex.touched {
+			ex.outOfStep[c] = true
+		}
+	}
 	if ex.insFail {
 		for c, p := range o.parentOf {
 			if r := (pvx.LinkRow{Parent: p, Child: c}); have[r] == 0 && ex.covers(r) {
@@ -206,14 +218,15 @@ func (ex *excuses) establish(o obs, rows []pvx.LinkRow, have map[pvx.LinkRow]int
 func (ex *excuses) excused(child int64) bool { return ex != nil && ex.outOfStep[child] }
 
 // settle: an agent whose stored rows are exactly its live link again is ordinary again.
-func (ex *excuses) settle(o obs, storedParents map[int64][]int64) {
+func (ex *excuses) settle(o obs, storedParents map[int64][]int64, dormant map[pvx.LinkRow]bool) {
 	if ex == nil {
 		return
 	}
 	for c := range ex.outOfStep {
 		ps := storedParents[c]
 		p, linked := o.parentOf[c]
-		if (linked && len(ps) == 1 && ps[0] == p) || (!linked && len(ps) == 0) {
+		quiet := len(ps) == 0 || (len(ps) == 1 && dormant[pvx.LinkRow{Parent: ps[0], Child: c}]) // no row, or one tolerated dormant row
+		if (linked && len(ps) == 1 && ps[0] == p) || (!linked && quiet) {
 			delete(ex.outOfStep, c)
 		}
 	}
@@ -245,7 +258,7 @@ func (ex *excuses) atReopen(w *pvx.World) error {
 
 // ---------------------------------------------------------------- model side (labels and generator bias)
 
-const modelDebug = true // true: the model panics when its stored state leaves the sessions' without a fault
+const modelDebug = false // true: the model panics when its stored state leaves the sessions' without a fault
 
 // blocked: the statement fails at the event being applied (ids: the agents the row concerns, by universe index).
 func (m *model) blocked(table, stmt string, ids ...int) bool {
